@@ -22,7 +22,9 @@ Step(objs, opts, call) ==
   ELSE IF call.op \in FormatOps THEN FormatStep(objs, opts, call)
   ELSE IF call.op \in SerialOps THEN SerialStep(objs, opts, call)
   ELSE IF call.op \in DeriveOps THEN DeriveStep(objs, opts, call)
-  ELSE IF call.op \in ArrayOps THEN ArrayStep(objs, opts, call)
+  \* (no property says what an Array does in lsb0 mode - C14 is about the list model, C12 about bitstrings - so
+  \* there only the envelope clauses of the validator apply)
+  ELSE IF call.op \in ArrayOps THEN (IF opts.lsb0 THEN Unconstrained ELSE ArrayStep(objs, opts, call))
   ELSE IF call.op \in PrintOps THEN PrintStep(objs, opts, call)
   ELSE Unconstrained
 =============================================================================
